@@ -31,7 +31,7 @@ def ed_sign(seed, m):
 
 class Model:
     def __init__(self, binary=BINARY):
-        self.p = subprocess.Popen(["bash", "-c", "ulimit -s unlimited 2>/dev/null; exec " + binary],
+        self.p = subprocess.Popen(["bash", "-c", "ulimit -s unlimited 2>/dev/null; export OCAMLRUNPARAM=s=32M; exec " + binary],
                                   stdin=subprocess.PIPE, stdout=subprocess.PIPE, text=True, bufsize=1)
         self.n = 0
         self.oracle_log = []      # every oracle line sent (replayable; also used by the kernel path)
